@@ -1,10 +1,11 @@
 // extract: the translator. Parses the current sources of /repo with go/parser + go/ast and
 // regenerates lean/Uhppote/Gen/*.lean. Anything it does not understand is emitted as the
-// undefined Lean identifier `unsupported_<file>_<line>` so that the Lean build fails loudly
+// placeholder `Uhppote.unknownOf "<file>_<line>"` (typed, opaque to the kernel) so that the facts that depend on it fail loudly
 // instead of guessing. Files are rewritten only when their content changes.
 package main
 
 import (
+	"regexp"
 	"bytes"
 	"flag"
 	"fmt"
@@ -44,7 +45,16 @@ func leanStr(s string) string {
 	return strconv.Quote(s)
 }
 
+var unsupportedRe = regexp.MustCompile(`\bunsupported_(\w+)`)
+
 func writeIfChanged(path, content string) {
+	// a construct the translator did not understand was emitted as the identifier unsupported_<what>: turn it into
+	// a typed, kernel-opaque placeholder so that the file still compiles and only what depends on that fact breaks
+	if strings.HasSuffix(path, ".lean") && unsupportedRe.MatchString(content) {
+		content = unsupportedRe.ReplaceAllString(content, `(Uhppote.unknownOf "$1")`)
+		lines := strings.SplitN(content, "\n", 2)
+		content = lines[0] + "\nimport Uhppote.Basic.Unknown\n" + lines[1]
+	}
 	if old, err := os.ReadFile(path); err == nil && string(old) == content {
 		return
 	}
